@@ -39,13 +39,15 @@ enum Case {
     Pure { seed: u64, n: usize, min: f32, max: f32 },
     /// shuffle a vector
     Shuffle { seed: u64, values: Vec<usize> },
-    /// Tensor::random
-    Random { shape: Vec<usize>, min: f32, max: f32 },
+    /// Tensor::random (`poke`: a request for an unsupported shape is made - and survived - first)
+    Random { shape: Vec<usize>, min: f32, max: f32, poke: bool },
+    /// one generator object serves two intervals in a row; the second draw happens at state `next2`
+    Mixed { next2: u64, first: (f32, f32), second: (f32, f32) },
     /// create(seed) of any magnitude then draw
     Seed { seed: u64, n: usize },
 }
 
-const KINDS: usize = 5;
+const KINDS: usize = 6;
 
 fn decode_interval(t: &mut Tape) -> (f32, f32) {
     match t.pick(9) {
@@ -149,7 +151,22 @@ fn decode(tape: &[u32]) -> Case {
             let zero_at = if t.chance(1, 8) { Some(t.pick(rank)) } else { None };
             let shape = (0..rank).map(|i| if zero_at == Some(i) && i > 0 { 0 } else { t.usize(1, 5) }).collect();
             let (min, max) = decode_interval(&mut t);
-            Case::Random { shape, min, max }
+            Case::Random { shape, min, max, poke: t.chance(1, 10) }
+        }
+        4 => {
+            let next2 = decode_state(&mut t);
+            // half of the cases: both intervals have decimal end points (tenths, each rounded on its own) and the same
+            // number of tenths between them, e.g. (0, 1) then (-0.9, 0.1): the single-precision widths are equal
+            // although the exact widths are not (anything a generator remembers per width must not leak across
+            // intervals); otherwise two independent intervals
+            let (first, second) = if t.bool() {
+                let j = t.int(1, 40);
+                let (k1, k2) = (t.int(-30, 30), t.int(-30, 30));
+                ((k1 as f32 / 10.0, (k1 + j) as f32 / 10.0), (k2 as f32 / 10.0, (k2 + j) as f32 / 10.0))
+            } else {
+                (decode_interval(&mut t), decode_interval(&mut t))
+            };
+            Case::Mixed { next2, first, second }
         }
         _ => {
             let seed = decode_seed(&mut t);
@@ -253,8 +270,45 @@ fn check(case: &Case, ev: &mut CaseEv) -> CheckResult {
                 }
             }
         }
-        Case::Random { shape, min, max } => {
+        Case::Mixed { next2, first, second } => {
+            ev.class("one generator, two intervals");
+            let same_width = (first.1 - first.0).to_bits() == (second.1 - second.0).to_bits();
+            if same_width {
+                ev.class("one generator, two intervals of equal single-precision width");
+            }
+            ev.nontrivial = *next2 >= M - (1 << 16) || *next2 <= 1 << 16;
+            ev.set_sig(&("mixed", next2, first.0.to_bits(), first.1.to_bits(), second.0.to_bits(), second.1.to_bits()));
+            if !(second.0 <= second.1 && second.0.is_finite() && second.1.is_finite() && first.0 <= first.1) {
+                ev.discard = Some("degenerate interval pair");
+                return Ok(());
+            }
+            let seed = prev_state(prev_state(*next2));
+            let r = catch(|| {
+                let mut g = Generator::create(seed);
+                let a = g.generate(first.0, first.1);
+                let b = g.generate(second.0, second.1);
+                (a, b)
+            });
+            match r {
+                Err(p) => fail!("generate panicked on the second of two intervals ({:e},{:e}) then ({:e},{:e}) at state {}: {}", first.0, first.1, second.0, second.1, next2, p),
+                Ok((a, b)) => {
+                    ensure!(a >= first.0 && a <= first.1, "generate({:e},{:e}) returned {:e} outside [min,max]", first.0, first.1, a);
+                    ensure!(
+                        b >= second.0 && b <= second.1,
+                        "one generator: generate({:e},{:e}) then generate({:e},{:e}) at state {} returned {:e} outside [min,max]",
+                        first.0, first.1, second.0, second.1, next2, b
+                    );
+                }
+            }
+            Ok(())
+        }
+        Case::Random { shape, min, max, poke } => {
             ev.class(format!("tensor-random:rank{}", shape.len()));
+            if *poke {
+                // a request the library refuses (unsupported shape), survived by the caller, must not disturb later requests
+                let _ = catch(|| Tensor::random(Shape::Nested(2), *min, *max));
+                ev.class("tensor-random after a refused request");
+            }
             ev.nontrivial = shape.iter().product::<usize>() >= 2;
             ev.set_sig(&("random", shape, min.to_bits(), max.to_bits()));
             let sh = match shape.len() {
@@ -355,7 +409,7 @@ impl Prop for C18 {
         t.pick(400_000, 10_000_000)
     }
     fn rule(&self) -> String {
-        "tape-decoded cases of five kinds (generate at a chosen generator state x interval class; purity of the sequence; shuffle with seeds of all magnitudes and lengths 0..1500 with duplicates (one in 4000: a length just above 2^24); Tensor::random shapes of rank 1-4 (a zero-sized inner dimension in 1/8); seeds up to u64::MAX) plus enumeration of generator states (quick: 2^16 lowest + 2^16 highest + a seed-offset progression; thorough: all 2^31-2 states). Non-trivial: state within 2^16 of either end of the state space, or seed >= 2^32, or shuffle length >= 2, or tensor with >= 2 entries. Distinct = (kind, state/seed, interval bits / length / shape).".into()
+        "tape-decoded cases of six kinds (one generator object serving two intervals in a row with the second draw at a chosen state - half of them pairs with decimal end points and equal single-precision width; generate at a chosen generator state x interval class; purity of the sequence; shuffle with seeds of all magnitudes and lengths 0..1500 with duplicates (one in 4000: a length just above 2^24); Tensor::random shapes of rank 1-4 (a zero-sized inner dimension in 1/8; in 1/10 after a refused request for an unsupported shape); seeds up to u64::MAX) plus enumeration of generator states (quick: 2^16 lowest + 2^16 highest + a seed-offset progression; thorough: all 2^31-2 states). Non-trivial: state within 2^16 of either end of the state space, or seed >= 2^32, or shuffle length >= 2, or tensor with >= 2 entries. Distinct = (kind, state/seed, interval bits / length / shape).".into()
     }
     fn assumptions(&self) -> Vec<String> {
         vec!["Tensor::random seeds itself from the wall clock: its inputs are not reproducible, the assertion (shape, interval) is seed-independent".into()]
